@@ -141,9 +141,10 @@ pub fn c11(t: &dyn TypeOps, cx: &mut Cx) {
         let mut arena = Arena::new(bytes.len() + 4096);
         match both(t, &bytes, &mut arena) { (Out::Ok(_), Out::Ok(_)) => {} _ => { cx.outcome("skipped-baseline-not-ok"); continue; } }
         cx.case(case_hash(cx, &want), true);
+        let mut guard = GuardArena::new(bytes.len() + 64);
         for k in 0..bytes.len() {
-            cx.evals += 2;
-            cx.transitions += 2;
+            cx.evals += 3;
+            cx.transitions += 3;
             let f = t.full(&bytes[..k]);
             cx.outcome(&format!("full-{}", f.class()));
             match &f {
@@ -161,6 +162,18 @@ pub fn c11(t: &dyn TypeOps, cx: &mut Cx) {
                 unsafe { std::alloc::dealloc(p, lay); }
                 r
             };
+            // the same prefix ending exactly at an inaccessible page: reading a single byte
+            // beyond the prefix (before a bounds check catches up) kills the worker
+            {
+                let g = guard.place_at_end(&bytes[..k]);
+                let r = t.eps(g).map(|x| x.0);
+                cx.outcome(&format!("eps-at-guard-page-{}", r.class()));
+                match &r {
+                    Out::Err(_) => {}
+                    Out::Panic(p) if panic_class(p) == "bounds" => {}
+                    o => cx.violate(&format!("eps-prefix-at-guard-page-{}", o.class()), json!({"value": vdesc(i, &want), "cut": k, "len": bytes.len(), "observed": o.describe()})),
+                }
+            }
             cx.outcome(&format!("eps-{}", e.class()));
             match &e {
                 Out::Err(_) => {}
@@ -173,6 +186,9 @@ pub fn c11(t: &dyn TypeOps, cx: &mut Cx) {
             let path = format!("{}/c11-{:016x}.bin", crate::checks3::scratch(), hash64(&[cx.type_id.as_bytes()]));
             // what a crash while STORING leaves behind: every strict prefix of the file that
             // `store` itself writes (which is the serialized stream, C08)
+            // (over an existing, longer file of the same type: a torn write must not be completed
+            // by what the old file left behind)
+            { let mut old = bytes.clone(); old.extend_from_slice(&bytes[bytes.len().saturating_sub(48)..]); let _ = std::fs::write(&path, &old); }
             let stored = match t.store(i, &path) { Out::Ok(()) => std::fs::read(&path).unwrap_or_default(), _ => bytes.clone() };
             let stored = if stored.is_empty() { bytes.clone() } else { stored };
             for k in 0..stored.len() {
@@ -590,6 +606,15 @@ pub fn c15(t: &dyn TypeOps, cx: &mut Cx) {
         match both(t, &bytes, &mut arena) {
             (Out::Ok(f), Out::Ok(e)) if f == want && e == want => cx.outcome("variant-roundtrip-ok"),
             (f, e) => cx.violate("variant-not-mapped-back", json!({"value": vdesc(i, &want), "full": f.describe(), "eps": e.describe()})),
+        }
+        // (a') the same through the stream that `serialize_with_schema` writes
+        if let Out::Ok(so) = t.ser_schema(i) {
+            cx.evals += 1;
+            if so.bytes.len() + 64 > arena.cap() { arena = Arena::new(so.bytes.len() * 2); }
+            match both(t, &so.bytes, &mut arena) {
+                (Out::Ok(f), Out::Ok(e)) if f == want && e == want => cx.outcome("variant-roundtrip-through-schema-writer-ok"),
+                (f, e) => cx.violate("variant-not-mapped-back-through-schema-writer", json!({"value": vdesc(i, &want), "full": f.describe(), "eps": e.describe()})),
+            }
         }
         // (b) foreign tags: needs the tag offsets of the model trace, hence a conforming stream
         if !masked_eq(&bytes, &enc.bytes, &enc.mask) { cx.outcome("foreign-tags-skipped-bytes-differ-from-model"); continue; }
